@@ -526,6 +526,23 @@ def r02_10(ctx):
     ctx.ob("R02.10", "reset-mode-all-targets", want <= seen_modes, "all %d target modes are produced" % len(want) if want <= seen_modes else "never produced: %s" % sorted(want - seen_modes))
 
 
+def r02_11(ctx):
+    from lib import rowcmp
+    cur = nf_common.area_current(ctx, TB)
+    ks = [k for k in cur if k.endswith("rules::TreeBuilder<Handle,Sink>::step")]
+    if len(ks) != 1 or cur[ks[0]]["kind"] != "paths":
+        raise AnchorMissing("TreeBuilder::step has no path normal form")
+    cells = cur[ks[0]]["cells"]
+    modes = set()
+    for c in cells:
+        for g in c["guards"]:
+            if g.startswith("p1 matches "):
+                modes.update(a.strip() for a in g[len("p1 matches "):].split("|"))
+    n = rowcmp.compare(cells, modes, lambda k, d: ctx.ob("R02.11", k, True, d),
+                       lambda k, kind, d: ctx.ob("R02.11", k + "/" + kind, False, d, "html5ever tree_builder rules.rs step vs ref/whatwg_rows.py"))
+    ctx.floor("R02.11", "row-situations-compared", n, 700)
+
+
 def r02_8(ctx):
     from lib import dispatchcmp
     cur = nf_common.area_current(ctx, TB)
@@ -548,6 +565,8 @@ def r02_8(ctx):
 def run(ctx):
     ctx.rule("R02.8", "tag dispatch of every insertion mode and of foreign content equals the independent transcription of the standard's rows: one handling per row, unlisted names handled like a fresh name, rows distinct except where the standard says 'act as anything else'")
     ctx.guard("R02.8", "dispatch", lambda: r02_8(ctx))
+    ctx.rule("R02.11", "every row of every insertion mode performs the steps the standard prescribes, under the conditions it prescribes (independent transcription ref/whatwg_rows.py; helper calls = steps; parse errors excluded)")
+    ctx.guard("R02.11", "rows", lambda: r02_11(ctx))
     ctx.rule("R02.10", "reset the insertion mode appropriately: element name and last flag select the mode the standard lists")
     ctx.guard("R02.10", "reset", lambda: r02_10(ctx))
     ctx.rule("R02.9", "quirks-mode tables equal the standard's lists; each is read case-insensitively by prefix/equality on the right identifier; the decision order is the standard's")
